@@ -66,6 +66,9 @@ def check(case, ev):
     c = common.build_valid(case, ev)
     if c is None:
         return
+    if common.ambiguous_prio(c):
+        ev.count("skipped_ambiguous_prio_sharing")
+        return
     prios = [tuple(kv) for kv in case["prios"]]
     orig_view = call(cfg_view, c, prios, what="querying the original configurator")
     cur = c
@@ -102,8 +105,8 @@ def check(case, ev):
         cur_spec = {"k": "Stingy", "id": cur_spec["id"], "c": cur_spec["c"] + [r]}
         direct_rules = [build.node(x, []) for x in cur_spec["c"]]
         direct = cc.StingyConfigurator(*direct_rules, id=c.id)
-        if call(direct.errors, what="errors()"):
-            ev.count("extended_model_invalid")
+        if call(direct.errors, what="errors()") or common.ambiguous_prio(direct):
+            ev.count("extended_model_invalid_or_ambiguous")
             break
         dv = call(cfg_view, direct, prios, what="querying the directly constructed configurator")
         nv = call(cfg_view, new, prios, what="querying the configurator returned by add()")
